@@ -2,15 +2,20 @@
    Only statements; each closed by `exact <lemma of Proofs/C19Proofs.v>`.
 
    C19_oracle is the full-strength statement: for EVERY configuration (timeout or not, caller data
-   directory or not, kill_on_stderr or not) and EVERY physically possible history of stimuli (wf: the
-   process ends at most once and is silent afterwards; waiter numbers distinct) -- stdout chunks cut
-   anywhere, stderr, connection attempts succeeding / failing, authentication outcomes, commands
-   acknowledged / rejected, progress events, the timeout, the exit, when_connected() calls, reactor
-   shutdown, in any order and any number -- the trace of the model satisfies the oracle of Spec/C19.v:
+   directory or not, kill_on_stderr or not, any number of round trips for attaching the TorConfig) and
+   EVERY physically possible history of stimuli (wf: the process ends at most once and is silent
+   afterwards; waiter numbers distinct) -- stdout chunks cut anywhere, stderr, connection attempts
+   succeeding / failing, authentication outcomes, commands acknowledged / rejected, the round trips of
+   the config attach (the last stage of _tor_connected, or done by launch() itself) answered / rejected,
+   progress events, the timeout, the exit, when_connected() calls, reactor shutdown, in any order and
+   any number -- the trace of the model satisfies the oracle of Spec/C19.v:
      * no waiter (the launch() result included) fires twice;
      * at the first of {100% on a connection that is authenticated and on which TAKEOWNERSHIP was sent,
        the launch timeout, the process's end} every waiter fires, with success in the first case and
        failure in the other two; later callers get that same outcome at once; nothing fires otherwise;
+       the one exception: on success the launch() result may be held back while a config attach is in
+       flight, and is then delivered by the answer that ends that attach (success if it was accepted,
+       failure if it was rejected);
      * TERM is sent when the timeout elapses undecided, and no signal is ever sent otherwise;
      * the first connection attempt happens exactly when the stdout seen so far contains the
        listener line, however it was cut;
@@ -57,15 +62,19 @@ Theorem C19_temp_dir_kept_while_running : forall cf h b,
 Proof. exact temp_dir_kept. Qed.
 Print Assumptions C19_temp_dir_kept_while_running.
 
-(* non-trivial instance: the listener line in two pieces, success at 100%, a late caller, then the
-   timeout (nothing happens) and the exit (the temporary directory goes) *)
+(* non-trivial instance: the listener line in two pieces, success at 100% while TAKEOWNERSHIP is still
+   unanswered (launch() attaches the config itself: two round trips, its result is held back and
+   delivered by the second answer), a late caller, then the timeout (nothing happens) and the exit (the
+   temporary directory goes) *)
 Example C19_nonvacuous :
-  let cf := {| c_timeout := true; c_userdir := false; c_killerr := true |} in
+  let cf := {| c_timeout := true; c_userdir := false; c_killerr := true; c_attach := 2 |} in
   let h := [OOut (firstn 10 LISTENER); OOut (skipn 10 LISTENER); OConnOk; OBoot 0 true; OAck 0 true;
-            OWhen 1; OProgress 0 100; OWhen 2; OTimeout; OExit (XCode 0)] in
+            OWhen 1; OProgress 0 100; OWhen 2; OAck 0 true; OAck 0 true; OAttach true; OAttach true;
+            OTimeout; OExit (XCode 0)] in
   wf h = true /\
   run cf h = [[EDir true]; [EDir true]; [EConnecting; EDir true]; [EDir true];
               [ESent 0 w_SETEVENTS_SC; EDir true]; [ESent 0 w_TAKEOWNERSHIP; EDir true]; [EDir true];
-              [EProgress 100; EFired 0 ROk; EFired 1 ROk; EDir true]; [EFired 2 ROk; EDir true];
+              [EProgress 100; EAttach 0; EFired 1 ROk; EDir true]; [EFired 2 ROk; EDir true];
+              [ESent 0 w_RESETCONF; EDir true]; [EDir true]; [EDir true]; [EFired 0 ROk; EDir true];
               [EDir true]; [EDir false]].
 Proof. vm_compute. auto. Qed.
